@@ -90,6 +90,14 @@ fn past_challenges(w: &World) -> Vec<(SocketAddr, Vec<u8>)> {
         .collect()
 }
 
+/// V's active requests in a canonical order that does not depend on random ids / nonces.
+fn canon_requests(w: &World) -> Vec<v::ActiveRequestSnap> {
+    let mut reqs = w.snap(V).map(|s| s.active_requests).unwrap_or_default();
+    // internal requests carry random ids: order them by when the harness first saw them
+    reqs.sort_by_key(|a| (a.internal, w.id_name(&a.id), a.addr.socket_addr, format!("{}", a.body), w.internal.get(&(V, a.id.clone())).map(|x| x.1), a.handshake_sent, a.remaining));
+    reqs
+}
+
 impl Attack {
     fn v_contact(w: &World) -> NodeContact {
         NodeContact::try_from_enr(w.nodes[V].enr.clone(), IpMode::Ip4).unwrap()
@@ -131,8 +139,8 @@ impl Driver for Attack {
             }
         }
         if self.ways {
-            if let Some(s) = w.snap(V) {
-                for (ai, _a) in s.active_requests.iter().enumerate() {
+            {
+                for (ai, _a) in canon_requests(w).iter().enumerate() {
                     out.push((Ev::Ext(code(3, (ai as u32) << 8)), 1));
                     out.push((Ev::Ext(code(3, (ai as u32) << 8 | 1)), 1));
                 }
@@ -215,7 +223,7 @@ impl Driver for Attack {
                 }
                 3 => {
                     let ai = (arg >> 8) as usize;
-                    let reqs = w.snap(V).map(|s| s.active_requests).unwrap_or_default();
+                    let reqs = canon_requests(w);
                     let a = match reqs.get(ai) {
                         Some(a) => a.clone(),
                         None => mc::machinery("attack: request index out of range (replay divergence)"),
@@ -239,7 +247,7 @@ impl Driver for Attack {
                     // M answers V's oldest request, using the session keys it shares with V
                     let s = w.snap(V).unwrap();
                     let sess = s.sessions.iter().find(|x| x.addr.socket_addr == m_addr()).cloned();
-                    let req = s.active_requests.iter().find(|a| a.addr.socket_addr == m_addr()).cloned();
+                    let req = canon_requests(w).into_iter().find(|a| a.addr.socket_addr == m_addr());
                     if let (Some(sess), Some(req)) = (sess, req) {
                         let body = match (&req.body, arg) {
                             (_, 2) => v::ResponseBody::Talk { response: vec![9] }, // wrong type / garbage
@@ -367,10 +375,11 @@ pub fn configs(thorough: bool) -> Vec<(String, HCfg)> {
         ("x-known-seq5".to_string(), base(vec![], 5)),
         ("v-dials-m".to_string(), base(vec![Req { from: 0, to: 9, body: Body::Ping, with_enr: true }], 1)),
         ("v-dials-x".to_string(), base(vec![Req { from: 0, to: 1, body: Body::Ping, with_enr: true }], 1)),
+        ("v-dials-m-noenr".to_string(), base(vec![Req { from: 0, to: 9, body: Body::Find(1), with_enr: false }], 1)),
+        ("v-dials-x-noenr".to_string(), base(vec![Req { from: 0, to: 1, body: Body::Ping, with_enr: false }], 1)),
     ];
     if thorough {
         out.push(("x-dials-v".to_string(), base(vec![Req { from: 1, to: 0, body: Body::Ping, with_enr: true }], 1)));
-        out.push(("v-dials-m-noenr".to_string(), base(vec![Req { from: 0, to: 9, body: Body::Find(1), with_enr: false }], 1)));
         out.push(("v-dials-both".to_string(), base(vec![Req { from: 0, to: 9, body: Body::Talk, with_enr: true }, Req { from: 0, to: 1, body: Body::Ping, with_enr: false }], 1)));
     }
     out
@@ -435,7 +444,7 @@ pub fn explore(prop: &str, thorough: bool, budget_s: f64, k_max: u32) -> (mc::St
             samples.push(json!({"world":name,"history":s}));
         }
         for mut v in vio {
-            if v.key.starts_with(&format!("{prop}:")) {
+            if v.key.starts_with(&format!("{prop}:")) || v.key.starts_with("panic:") {
                 v.replay["workload"] = json!(name);
                 v.replay["driver"] = json!("attack");
                 found.push(v);
